@@ -25,8 +25,10 @@ REQUIRED_THEOREMS = ['this_in_iso_week', 'next_is_following_week', 'last_is_prec
                      'month_prefix_period', 'year_prefix_period', 'year_to_date', 'month_to_date',
                      'month_to_date_prefix', 'month_to_date_prefix_regression', 'rest_of_week', 'rest_of_month', 'rest_of_year', 'rest_of_witnesses',
                      'zh_special_day', 'zh_next_weekday', 'zh_n_days_ago', 'zh_n_weeks_is_7n_days', 'zh_week_period', 'zh_month_period',
-                     'zh_year_period', 'zh_this_year_is_year_to_date', 'zh_months_years_ignore_number', 'zh_simple_cases_definite_ok',
-                     'zh_past_n_days_weeks_ok']
+                     'zh_year_period', 'zh_this_year_is_year_to_date', 'zh_n_months_ago', 'zh_n_months_later', 'zh_n_years_ago',
+                     'zh_n_years_later', 'zh_months_years_prefix_regression', 'zh_simple_cases_definite_ok',
+                     'zh_simple_cases_relative_month_fixed', 'zh_simple_cases_prefix_regression', 'zh_quarter_ok',
+                     'zh_quarter4_prefix_regression', 'zh_past_n_days_weeks_ok', 'zh_next_n_days_weeks_ok']
 RULE = ('unit: every ordinal of 1950..2090 + stride 97 over 0001..9999 (thorough: every ordinal) for ord2ymd/weekday/'
         'isocalendar; datedelta shim x 22 deltas on boundary days + all days of 2019-2021; this/next/last on every day of '
         '1950..2090 x dow 0..7; get_date_result D/W/MON/Y x N x both directions; parse_implicit_date and '
